@@ -49,13 +49,30 @@ def _whole_slice(e):
     return e
 
 
+def _is_true(e):
+    e = A.strip(e)
+    return bool(e) and e.get("k") == "Lit" and e.get("ty") == "bool" and e.get("v") == "true"
+
+
+def _flag_set(e):
+    """`if c { flag = true; }` -> the flag's path expression, else None"""
+    st = A.stmts_of(e["then"])
+    if len(st) != 1:
+        return None
+    a = A.stmt_expr(st[0])
+    a = A.strip(a) if a else None
+    if a and a.get("k") == "Assign" and A.ident(A.strip(a["left"])) and _is_true(a["right"]):
+        return A.strip(a["left"])
+    return None
+
+
 def collect_effects(body, env, problems, loop_depth=0):
     """Walk an arm body in order.  Returns a list of
        ('assign', left_term, right_term, node) / ('oreq', left_expr, right_expr, node) /
        ('other', node).
        `for i in 0..size { .. }` bodies are inlined (the range must be the whole slice)."""
     out = []
-    for s in A.stmts_of(body):
+    for s in A.inline_simple_lets(A.stmts_of(body)):
         k = s.get("k")
         if k == "Let":
             T.bind_let(s, env)
@@ -80,6 +97,11 @@ def collect_effects(body, env, problems, loop_depth=0):
             out.append(("assign", T.norm(e["left"], env), T.norm(e["right"], env), e))
         elif ek == "Binary" and e["op"] == "|=":
             out.append(("oreq", e["left"], e["right"], e, env.copy()))
+        elif ek == "If" and not e.get("else") and _flag_set(e) is not None:
+            # `if c { flag = true; }` is `flag |= c`
+            flag = _flag_set(e)
+            syn = {"k": "Binary", "op": "|=", "left": flag, "right": A.strip(e["cond"]), "ln": e.get("ln"), "c": e.get("c")}
+            out.append(("oreq", flag, A.strip(e["cond"]), syn, env.copy()))
         elif ek == "MethodCall" and e["method"] == "copy_from_slice" and len(e["args"]) == 1:
             dst = _whole_slice(e["recv"])
             src = _whole_slice(e["args"][0])
